@@ -1,4 +1,5 @@
 """Property table: how each property is decided (lanes), what counts as a non-trivial case, assumptions."""
+import os
 from . import common
 from .common import Inconclusive
 
@@ -43,7 +44,45 @@ def simple(check, require_full=()):
 
 
 def setup():
+    """Build the monitor binaries of every lane once, so that the checks themselves only pay for running: the release and
+    dev-profile binaries, the AddressSanitizer build and the Miri sysroot + interpreter build.  Only the first build is
+    required to succeed here; a lane whose tool is missing reports itself as inconclusive when its check runs."""
+    import concurrent.futures as cf
+    import subprocess
     common.cargo_build(["vh"], "release")
+    hd = common.harness_dir()
+
+    def native():
+        for pk in ("vh-mem", "vh-env", "vh-mt"):
+            common.cargo_build([pk], "release")
+        common.cargo_build(["vh-mem"], "dev")
+        common.cargo_build(["vh-mt"], "dev")
+
+    def mtcap():
+        common.cargo_build(["vh-mt"], "release", target_dir="target-mtcap", extra_args=["--features", "capture"])
+
+    def asan():
+        env = dict(common.ENV)
+        env["CARGO_TARGET_DIR"] = os.path.join(hd, "target-asan")
+        env["RUSTFLAGS"] = "-Zsanitizer=address -Cforce-frame-pointers=yes"
+        common.invalidate_if_sources_changed(env["CARGO_TARGET_DIR"])
+        subprocess.run(["cargo", "+nightly", "build", "--offline", "--release", "--target", "x86_64-unknown-linux-gnu", "-p", "vh-mem"], cwd=hd, env=env, stdout=subprocess.PIPE, stderr=subprocess.STDOUT, timeout=3600)
+
+    def miri():
+        env = dict(common.ENV)
+        env["CARGO_TARGET_DIR"] = os.path.join(hd, "target-miri")
+        env["MIRIFLAGS"] = "-Zmiri-disable-isolation"
+        common.invalidate_if_sources_changed(env["CARGO_TARGET_DIR"])
+        for pk, arg in (("vh-mem", ["canary", "uninit"]), ("vh-mt", ["canary-race"])):
+            subprocess.run(["cargo", "+nightly", "miri", "run", "--offline", "-q", "-p", pk, "--"] + arg, cwd=hd, env=env, stdout=subprocess.PIPE, stderr=subprocess.PIPE, timeout=3600)
+
+    with cf.ThreadPoolExecutor(max_workers=4) as ex:
+        futs = {ex.submit(f): f.__name__ for f in (native, mtcap, asan, miri)}
+        for f, name in futs.items():
+            try:
+                f.result()
+            except Exception as e:  # noqa
+                print("note: setup could not prepare the %s lane (%s); its check will say so" % (name, str(e)[:200]))
 
 
 PROPS = {}
